@@ -111,7 +111,9 @@ func c06Alphabet(thorough bool) []nstmt {
 	add("select(m1,zz)", q(func(x *gripql.Query) *gripql.Query { return x.Select("m1", "zz") }))
 	add("select(m1)", q(func(x *gripql.Query) *gripql.Query { return x.Select("m1") }))
 	add("has(eq($zz.n,1))", &gripql.GraphStatement{Statement: &gripql.GraphStatement_Has{Has: cond(gripql.Condition_EQ, "$zz.n", 1.0)}})
-	add("render($zz)", q(func(x *gripql.Query) *gripql.Query { return x.Render(map[string]any{"a": "$zz.n", "b": "$zz", "c": 1.0}) }))
+	add("render($zz)", q(func(x *gripql.Query) *gripql.Query {
+		return x.Render(map[string]any{"a": "$zz.n", "b": "$zz", "c": 1.0})
+	}))
 	add("distinct($zz.n)", q(func(x *gripql.Query) *gripql.Query { return x.Distinct("$zz.n") }))
 	add("hasKey($zz.n)", q(func(x *gripql.Query) *gripql.Query { return x.HasKey("$zz.n") }))
 	// aggregations
@@ -214,12 +216,12 @@ func (b *bulkStream) Recv() (*gripql.GraphElement, error) {
 	return b.elems[b.i-1], nil
 }
 func (b *bulkStream) SendAndClose(*gripql.BulkEditResult) error { return nil }
-func (b *bulkStream) SetHeader(metadata.MD) error              { return nil }
-func (b *bulkStream) SendHeader(metadata.MD) error             { return nil }
-func (b *bulkStream) SetTrailer(metadata.MD)                   {}
-func (b *bulkStream) Context() context.Context                 { return b.ctx }
-func (b *bulkStream) SendMsg(m interface{}) error              { return nil }
-func (b *bulkStream) RecvMsg(m interface{}) error              { return nil }
+func (b *bulkStream) SetHeader(metadata.MD) error               { return nil }
+func (b *bulkStream) SendHeader(metadata.MD) error              { return nil }
+func (b *bulkStream) SetTrailer(metadata.MD)                    {}
+func (b *bulkStream) Context() context.Context                  { return b.ctx }
+func (b *bulkStream) SendMsg(m interface{}) error               { return nil }
+func (b *bulkStream) RecvMsg(m interface{}) error               { return nil }
 
 var _ grpc.ServerStream = (*bulkStream)(nil)
 
@@ -293,14 +295,24 @@ func c06Edits(thorough bool) []c06Edit {
 			c06Edit{"AddEdge(valid)@" + g, func(s gripql.EditServer, q gripql.QueryServer) {
 				s.AddEdge(ctx, &gripql.GraphElement{Graph: g, Edge: &gripql.Edge{Label: "x", From: "v", To: "v"}})
 			}},
-			c06Edit{"DeleteVertex@" + g, func(s gripql.EditServer, q gripql.QueryServer) { s.DeleteVertex(ctx, &gripql.ElementID{Graph: g, Id: "v"}) }},
-			c06Edit{"DeleteEdge@" + g, func(s gripql.EditServer, q gripql.QueryServer) { s.DeleteEdge(ctx, &gripql.ElementID{Graph: g, Id: "e"}) }},
+			c06Edit{"DeleteVertex@" + g, func(s gripql.EditServer, q gripql.QueryServer) {
+				s.DeleteVertex(ctx, &gripql.ElementID{Graph: g, Id: "v"})
+			}},
+			c06Edit{"DeleteEdge@" + g, func(s gripql.EditServer, q gripql.QueryServer) {
+				s.DeleteEdge(ctx, &gripql.ElementID{Graph: g, Id: "e"})
+			}},
 			c06Edit{"DeleteGraph@" + g, func(s gripql.EditServer, q gripql.QueryServer) { s.DeleteGraph(ctx, &gripql.GraphID{Graph: g}) }},
 			c06Edit{"AddGraph@" + g, func(s gripql.EditServer, q gripql.QueryServer) { s.AddGraph(ctx, &gripql.GraphID{Graph: g}) }},
-			c06Edit{"AddIndex@" + g, func(s gripql.EditServer, q gripql.QueryServer) { s.AddIndex(ctx, &gripql.IndexID{Graph: g, Label: "L", Field: "f"}) }},
-			c06Edit{"DeleteIndex@" + g, func(s gripql.EditServer, q gripql.QueryServer) { s.DeleteIndex(ctx, &gripql.IndexID{Graph: g, Label: "L", Field: "f"}) }},
+			c06Edit{"AddIndex@" + g, func(s gripql.EditServer, q gripql.QueryServer) {
+				s.AddIndex(ctx, &gripql.IndexID{Graph: g, Label: "L", Field: "f"})
+			}},
+			c06Edit{"DeleteIndex@" + g, func(s gripql.EditServer, q gripql.QueryServer) {
+				s.DeleteIndex(ctx, &gripql.IndexID{Graph: g, Label: "L", Field: "f"})
+			}},
 			c06Edit{"AddSchema(nil)@" + g, func(s gripql.EditServer, q gripql.QueryServer) { s.AddSchema(ctx, &gripql.Graph{Graph: g}) }},
-			c06Edit{"GetVertex@" + g, func(s gripql.EditServer, q gripql.QueryServer) { q.GetVertex(ctx, &gripql.ElementID{Graph: g, Id: "v"}) }},
+			c06Edit{"GetVertex@" + g, func(s gripql.EditServer, q gripql.QueryServer) {
+				q.GetVertex(ctx, &gripql.ElementID{Graph: g, Id: "v"})
+			}},
 			c06Edit{"GetEdge@" + g, func(s gripql.EditServer, q gripql.QueryServer) { q.GetEdge(ctx, &gripql.ElementID{Graph: g, Id: "e"}) }},
 			c06Edit{"ListLabels@" + g, func(s gripql.EditServer, q gripql.QueryServer) { q.ListLabels(ctx, &gripql.GraphID{Graph: g}) }},
 			c06Edit{"ListIndices@" + g, func(s gripql.EditServer, q gripql.QueryServer) { q.ListIndices(ctx, &gripql.GraphID{Graph: g}) }},
